@@ -142,9 +142,9 @@ prop('C18', units=['conv', 'qt', 'xlr', 'drv', 'xc'], level='proof',
      witnesses=['D7', 'D17'])
 
 prop('C20', units=['pdf', 'fmv'], level='proof',
-     technique='Verus: safe_page_chunks_with_remainder_pn (every page 1..=n in some group, none out of range, no empty group) and OptimizedPageIter::next (never requests an unloaded / non-existent page, no unwrap/index failure); FmvParseSm (parse_page, gather_security_line, gather_total_line, finalize_security_fmv, parse_fmvs_from_page) against the spec function `run` (line-by-line reading), and theorem_layout / theorem_layout_empty: on every table of the documented layout `run` yields each row exactly once, in order, with the table total; parse_statement_text: the table is read from the first page that carries the table heading (no earlier page skipped in the search), the statement month is the first readable month line up to that page, and a statement is refused only for a stated reason (no heading page, unreadable table, no month line, a month line that is not a date)',
+     technique='Verus: safe_page_chunks_with_remainder_pn (every page 1..=n in some group, none out of range, no empty group) and OptimizedPageIter::next (never requests an unloaded / non-existent page, no unwrap/index failure) on top of LazyPageTextVec::load_pages (the cache update loop: what was loaded stays loaded, every requested page is loaded, for hint groups in any order); FmvParseSm (parse_page, gather_security_line, gather_total_line, finalize_security_fmv, parse_fmvs_from_page) against the spec function `run` (line-by-line reading), and theorem_layout / theorem_layout_empty: on every table of the documented layout `run` yields each row exactly once, in order, with the table total; parse_statement_text: the table is read from the first page that carries the table heading (no earlier page skipped in the search), the statement month is the first readable month line up to that page, and a statement is refused only for a stated reason (no heading page, unreadable table, no month line, a month line that is not a date)',
      level_text='Deductive proof (Verus). Page order: for all hint lists and page counts. Allocation table: the real state machine is verified against a recursive spec function over the lines of the page, for all pages; and for all pages whose table follows the documented layout (stated declaratively: header line, rows = first line + continuation lines whose joined text parses, a total-looking line inside a row only while the text so far does not parse, total row) that function returns exactly the rows, once each, and the total. What a regular expression matches / captures, str::trim/contains/lines and the meaning of one row text are uninterpreted functions of the text.',
-     level_note='load_pages (pdf text extraction) and get_num_pages < u32::MAX are assumed; Iterator::next is verified as an inherent method (rule R23); hole_missing_pages / hole_to_deque paraphrase std iterator chains. parse_statement_text: the generic page iterator becomes a list of page texts (R35), the body of the month-line branch (month name, integer parsing, Date::from_calendar_date) is one hole with the same three outcomes (ignored / date / refusal). fmv: regex / str stand-ins of shim/fmv_stubs.rs (group 1 of SEC_FIRST_ROW_RE and TOTAL_ROW_RE takes part in every match); security_text_to_fmv and parse_large_decimal are assumed to be functions of their text.',
+     level_note='get_num_pages < u32::MAX is assumed; LazyPageTextVec::load_pages is verified (the cache only grows: what was loaded stays loaded, the requested pages are loaded -- defect D18 was hidden behind an assumed contract here until the fourth seed round) with the text extraction (one text per requested page) and the zip as holes; Iterator::next is verified as an inherent method (rule R23); hole_missing_pages / hole_to_deque paraphrase std iterator chains. parse_statement_text: the generic page iterator becomes a list of page texts (R35), the body of the month-line branch (month name, integer parsing, Date::from_calendar_date) is one hole with the same three outcomes (ignored / date / refusal). fmv: regex / str stand-ins of shim/fmv_stubs.rs (group 1 of SEC_FIRST_ROW_RE and TOTAL_ROW_RE takes part in every match); security_text_to_fmv and parse_large_decimal are assumed to be functions of their text.',
      not_covered=['what SEC_DATA_RE extracts from a row text (description / allocation / value split)', 'what the month line regex captures and how month names / numbers are read (one uninterpreted function of the page text)', 'pdf text extraction'],
      witnesses=[])
 
